@@ -364,6 +364,8 @@ func runCase() {
 		caseCrash(res, idx, dir, seed, tier)
 	case "fault":
 		caseFault(res, idx, dir, seed, tier)
+	case "limits":
+		caseLimits(res, idx, dir, seed, tier)
 	}
 	seam.Restore()
 	data, _ := json.Marshal(res)
